@@ -1,5 +1,8 @@
 import Rooc.WireModel
 import Rooc.Builder
+import Rooc.BuilderHist
+import Rooc.WireSolve
+import Rooc.Pipes
 import Rooc.Drv.C03
 namespace Rooc.Drv.C16
 open Rooc Sexp Builder
@@ -10,7 +13,115 @@ def decVars {α : Type} [Wire α] : Sexp → Option (List (String × VarType α)
       | _ => none)
   | _ => none
 
+/-! ### builder call histories (`history` request)
+
+```
+request  ::= history (ops OP*) [(solution SOL (handles N*) (exprs E*) (cnames STR*))]
+OP       ::= (add-var STR T) | (add-vars STR N T) | (with BC) | (with-all BC*) | (maximize E) | (minimize E) | (satisfy)
+BC       ::= (bc STR cmp E E true|false)                      -- all (public) fields of a `BuilderConstraint`
+SOL      ::= (sol (value N) (assign (STR val)*) (rows (STR N)*) (duals (STR N)*))
+response ::= (ok (outcomes O*) RMODEL|(index-panic) [READBACK])
+O        ::= (handles N*) | (unit) | (duplicate STR)
+RMODEL   ::= (rmodel (ot E) (constraints BC*) (domain …))
+READBACK ::= (readback (value N) (var-values (val|none)*) (numeric (N|none)*) (evals N*) (cvalues (N|none)*) (duals (N|none)*))
+```
+-/
+
+def decBool : Sexp → Option Bool
+  | .atom "true" => some true | .atom "false" => some false | _ => none
+
+def decBC {α : Type} [Wire α] : Sexp → Option (Constraint α)
+  | .list [.atom "bc", .str n, .atom c, l, r, a] => do
+    pure { name := n, lhs := ← Exp.dec l, cmp := ← Cmp.ofName c, rhs := ← Exp.dec r, isAssert := ← decBool a }
+  | _ => none
+
+def encBC {α : Type} [Wire α] (c : Constraint α) : Sexp :=
+  app "bc" [.str c.name, .atom c.cmp.name, c.lhs.enc, c.rhs.enc, .atom (if c.isAssert then "true" else "false")]
+
+def decOp {α : Type} [Wire α] : Sexp → Option (Op α)
+  | .list [.atom "add-var", .str n, t] => do pure (.addVar n (← VarType.dec t))
+  | .list [.atom "add-vars", .str n, k, t] => do pure (.addVars n (← decNat k) (← VarType.dec t))
+  | .list [.atom "with", c] => do pure (.with_ (← decBC c))
+  | .list (.atom "with-all" :: cs) => do pure (.withAll (← optAll (cs.map decBC)))
+  | .list [.atom "maximize", e] => do pure (.maximize (← Exp.dec e))
+  | .list [.atom "minimize", e] => do pure (.minimize (← Exp.dec e))
+  | .list [.atom "satisfy"] => some .satisfy
+  | _ => none
+
+def encOutcome : Outcome → Sexp
+  | .handles hs => app "handles" (hs.map fun h => .atom (toString h))
+  | .unit => app "unit" []
+  | .duplicate n => app "duplicate" [.str n]
+
+def encRModel {α : Type} [Wire α] (m : Model α) : Sexp :=
+  app "rmodel" [.list [.atom m.optType.name, m.objective.enc], app "constraints" (m.constraints.map encBC),
+    app "domain" (m.domain.map DomVar.enc)]
+
+open SolverWrap in
+def decSol {α : Type} [Wire α] [Arith α] : Sexp → Option (Solution α)
+  | .list [.atom "sol", .list [.atom "value", v], .list (.atom "assign" :: asg), .list (.atom "rows" :: rows),
+      .list (.atom "duals" :: duals)] => do
+    let assignment ← optAll (asg.map fun | .list [.str n, x] => (Val.dec x).map (n, ·) | _ => none)
+    pure { status := .optimal, value := ← decNumS v, assignment := assignment, constraints := ← decPairs rows,
+           shadow := ← decPairs duals }
+  | _ => none
+
+def encOptNum {α : Type} [Wire α] : Option α → Sexp
+  | some v => encNum v | none => .atom "none"
+
+open SolverWrap in
+def readback {α : Type} [Arith α] [Wire α] (b : BSolution α) (hs : List Nat) (es : List (Exp α)) (cs : List String) : Sexp :=
+  app "readback" [app "value" [encNum b.value],
+    app "var-values" (hs.map fun h => match b.varValue h with | some v => v.enc | none => .atom "none"),
+    app "numeric" (hs.map fun h => encOptNum (b.numericValue h)),
+    app "evals" (es.map fun e => encNum (b.eval e)),
+    app "cvalues" (cs.map fun c => encOptNum (b.constraintValue c)),
+    app "duals" (cs.map fun c => encOptNum (b.shadowPrice c))]
+
+def history (α : Type) [Arith α] [Wire α] (ops : List Sexp) (rest : List Sexp) : Sexp :=
+  match (optAll (ops.map decOp) : Option (List (Op α))) with
+  | none => app "err" [.atom "decode-ops"]
+  | some ops =>
+    let (s, outs) := run (BState.new : BState α) ops
+    let head := [app "outcomes" (outs.map encOutcome),
+      match s.intoModel with | some m => encRModel m | none => app "index-panic" []]
+    match rest with
+    | [] => app "ok" head
+    | [.list [.atom "solution", sol, .list (.atom "handles" :: hs), .list (.atom "exprs" :: es), .list (.atom "cnames" :: cs)]] =>
+      match (decSol sol : Option (SolverWrap.Solution α)), optAll (hs.map decNat), (optAll (es.map Exp.dec) : Option (List (Exp α))),
+          optAll (cs.map fun | .str c => some c | _ => none) with
+      | some sol, some hs, some es, some cs =>
+        app "ok" (head ++ [readback { solution := sol, variableNames := s.variableNames } hs es cs])
+      | _, _, _, _ => app "err" [.atom "decode-solution"]
+    | _ => app "err" [.atom "bad-request"]
+
+/-! ### the staged pipe runner (`run-pipe` request)
+
+```
+request  ::= run-pipe (pipes NAME*) TYPE (fail N | none)      -- NAME = the Rust struct name, TYPE = PipeDataType
+response ::= (ok TYPE*) | (err (invalid-data TYPE TYPE) | (stage VARIANT)  (results TYPE*))
+```
+-/
+open Pipes in
+def runPipeReq (pipes : List Sexp) (start fail : Sexp) : Sexp :=
+  let kinds := optAll (pipes.map fun | .atom n => PipeKind.ofName n | _ => none)
+  let st := match start with | .atom n => DataTy.ofName n | _ => none
+  let fa : Option (Option Nat) := match fail with
+    | .atom "none" => some none
+    | .list [.atom "fail", n] => (decNat n).map some
+    | _ => none
+  match kinds, st, fa with
+  | some kinds, some st, some fa =>
+    let tys (l : List DataTy) : List Sexp := l.map fun t => .atom t.name
+    match runTags kinds st fa with
+    | .ok rs => app "ok" (tys rs)
+    | .error (.invalidData e g, rs) => app "err" [app "invalid-data" [.atom e.name, .atom g.name], app "results" (tys rs)]
+    | .error (.stage v, rs) => app "err" [app "stage" [.atom v], app "results" (tys rs)]
+  | _, _, _ => app "err" [.atom "decode"]
+
 def handle (α : Type) [Arith α] [Wire α] : List Sexp → Sexp
+  | [.atom "run-pipe", .list (.atom "pipes" :: ps), start, fail] => runPipeReq ps start fail
+  | .atom "history" :: .list (.atom "ops" :: ops) :: rest => history α ops rest
   | [.atom "eval-expr", e, .list (.atom "vals" :: vs)] =>
     match (Exp.dec e : Option (Exp α)), (optAll (vs.map decNumS) : Option (List α)) with
     | some e, some vals => app "ok" [encNum (evalExpr (fun i => vals.getD i Arith.zero) e)]
